@@ -790,40 +790,62 @@ Lemma cols_of_items t : cols_of (items_of t) = tcols t.
 Proof.
   unfold cols_of, items_of. rewrite !flat_map_app.
   rewrite (fm_id _ ICol) by reflexivity. rewrite (fm_nil _ IIdx), (fm_nil _ IFk), (fm_nil _ ICheck) by reflexivity.
-  destruct (tpk t); cbn; rewrite ?app_nil_r; reflexivity.
+  destruct (shown_pk t); cbn; rewrite ?app_nil_r; reflexivity.
 Qed.
 
-Lemma pk_of_items t : pk_of (items_of t) = tpk t.
+Lemma pk_of_items t : pk_of (items_of t) = shown_pk t.
 Proof.
   unfold pk_of, items_of. rewrite !flat_map_app.
   rewrite (fm_nil _ ICol), (fm_nil _ IIdx), (fm_nil _ IFk), (fm_nil _ ICheck) by reflexivity.
-  destruct (tpk t); cbn; rewrite ?app_nil_r; reflexivity.
+  destruct (shown_pk t); cbn; rewrite ?app_nil_r; reflexivity.
 Qed.
 
 Lemma idx_of_items t : idx_of (items_of t) = tidx t.
 Proof.
   unfold idx_of, items_of. rewrite !flat_map_app.
   rewrite (fm_id _ IIdx) by reflexivity. rewrite (fm_nil _ ICol), (fm_nil _ IFk), (fm_nil _ ICheck) by reflexivity.
-  destruct (tpk t); cbn; rewrite ?app_nil_r; reflexivity.
+  destruct (shown_pk t); cbn; rewrite ?app_nil_r; reflexivity.
 Qed.
 
 Lemma fks_of_items t : fks_of (items_of t) = tfks t.
 Proof.
   unfold fks_of, items_of. rewrite !flat_map_app.
   rewrite (fm_id _ IFk) by reflexivity. rewrite (fm_nil _ ICol), (fm_nil _ IIdx), (fm_nil _ ICheck) by reflexivity.
-  destruct (tpk t); cbn; rewrite ?app_nil_r; reflexivity.
+  destruct (shown_pk t); cbn; rewrite ?app_nil_r; reflexivity.
 Qed.
 
 Lemma checks_of_items t : checks_of (items_of t) = shown_checks t.
 Proof.
   unfold checks_of, items_of. rewrite !flat_map_app.
   rewrite (fm_id _ ICheck) by reflexivity. rewrite (fm_nil _ ICol), (fm_nil _ IIdx), (fm_nil _ IFk) by reflexivity.
-  destruct (tpk t); cbn; reflexivity.
+  destruct (shown_pk t); cbn; reflexivity.
+Qed.
+
+Lemma strs_eqb_eq a b : strs_eqb a b = true -> a = b.
+Proof.
+  revert b. induction a as [|x a IH]; intros [|y b] H; cbn in H; try discriminate; [reflexivity|].
+  apply andb_prop in H. destruct H as [H1 H2]. apply str_eqb_eq in H1. apply IH in H2. congruence.
+Qed.
+
+Lemma shown_pk_wf t : wf_table t = true -> shown_pk t = tpk t.
+Proof.
+  unfold wf_table. intro H. apply andb_prop in H. destruct H as [H _].
+  apply andb_prop in H. destruct H as [_ H]. apply strs_eqb_eq. exact H.
+Qed.
+
+Lemma shown_comment_wf t : wf_table t = true -> shown_comment t = tcomment t.
+Proof.
+  unfold wf_table, shown_comment. intro H. apply andb_prop in H. destruct H as [H _].
+  apply andb_prop in H. destruct H as [H _].
+  apply andb_prop in H. destruct H as [_ H]. destruct (existsb is_virtual (tcols t)); [|reflexivity].
+  cbn in H. destruct (tcomment t); [reflexivity|discriminate].
 Qed.
 
 Lemma shown_checks_wf t : wf_table t = true -> shown_checks t = tchecks t.
 Proof.
   unfold wf_table, shown_checks. intro H. apply andb_prop in H. destruct H as [H _].
+  apply andb_prop in H. destruct H as [H _].
+  apply andb_prop in H. destruct H as [H _].
   apply andb_prop in H. destruct H as [_ H]. destruct (existsb is_virtual (tcols t)); [|reflexivity].
   cbn in H. destruct (tchecks t); [reflexivity|discriminate].
 Qed.
@@ -832,13 +854,15 @@ Lemma items_wf t : wf_table t = true -> Forall (wf_item (tcoll t)) (items_of t) 
 Proof.
   intro Hwf. pose proof (shown_checks_wf t Hwf) as Hsc. unfold wf_table in Hwf.
   apply andb_prop in Hwf. destruct Hwf as [H Hai]. apply andb_prop in H. destruct H as [H _].
+  apply andb_prop in H. destruct H as [H _].
+  apply andb_prop in H. destruct H as [H _].
   apply andb_prop in H. destruct H as [H Hck].
   apply andb_prop in H. destruct H as [H Hfk]. apply andb_prop in H. destruct H as [H Hix].
   apply andb_prop in H. destruct H as [Hne Hcols].
   rewrite forallb_forall in Hcols, Hix, Hfk, Hck. split.
   - unfold items_of. rewrite Hsc. rewrite !Forall_app. repeat split.
     + apply Forall_forall. intros it Hin. apply in_map_iff in Hin. destruct Hin as [c [<- Hc]]. exact (Hcols c Hc).
-    + destruct (tpk t) eqn:E; [apply Forall_nil|]. apply Forall_cons; [cbn; discriminate|apply Forall_nil].
+    + destruct (shown_pk t) eqn:E; [apply Forall_nil|]. apply Forall_cons; [cbn; discriminate|apply Forall_nil].
     + apply Forall_forall. intros it Hin. apply in_map_iff in Hin. destruct Hin as [c [<- Hc]]. exact (Hix c Hc).
     + apply Forall_forall. intros it Hin. apply in_map_iff in Hin. destruct Hin as [c [<- Hc]]. exact (Hfk c Hc).
     + apply Forall_forall. intros it Hin. apply in_map_iff in Hin. destruct Hin as [c [<- Hc]]. exact (Hck c Hc).
@@ -856,10 +880,10 @@ Proof.
   intro Hwf. destruct (items_wf t Hwf) as [Hits Hne].
   assert (Hai : match tautoinc t with None => true | Some n => is_num n end = true).
   { unfold wf_table in Hwf. apply andb_prop in Hwf. destruct Hwf as [_ H]. exact H. }
-  pose proof (cols_of_items t) as Ec. pose proof (pk_of_items t) as Ep.
+  pose proof (cols_of_items t) as Ec. pose proof (pk_of_items t) as Ep. rewrite (shown_pk_wf t Hwf) in Ep.
   pose proof (idx_of_items t) as Ei. pose proof (fks_of_items t) as Ef.
   pose proof (checks_of_items t) as Ek. rewrite (shown_checks_wf t Hwf) in Ek.
-  unfold parse_table, print_table.
+  unfold parse_table, print_table. rewrite (shown_comment_wf t Hwf).
   rewrite strip_app.
   rewrite p_flag_if; [|reflexivity]. cbv beta iota. rewrite strip_app.
   rewrite p_qid_ok; [|reflexivity]. rewrite strip_app.
